@@ -127,6 +127,7 @@ type node struct {
 	new                   bool
 	logDBLimited          bool
 	rateLimited           bool
+	maxCompactTo          uint64
 	notifyCommit          bool
 }
 
@@ -955,6 +956,14 @@ func (n *node) removeLog() error {
 		if compactTo == 0 {
 			panic("racy compact log to value?")
 		}
+		if compactTo <= n.maxCompactTo {
+			// compaction indexes are not monotonic, a user requested snapshot can
+			// ask for a larger compaction overhead or a lower compaction index than
+			// the previous snapshot. the log has already been compacted up to a
+			// higher index, the LogDB must not be asked to move backwards.
+			return nil
+		}
+		n.maxCompactTo = compactTo
 		if err := n.logReader.Compact(compactTo); err != nil {
 			if err != raft.ErrCompacted {
 				return err
